@@ -93,6 +93,19 @@ Theorem unit_harmonise_exact : forall g rs i k ss,
 Proof. exact lin_map_scale. Qed.
 Print Assumptions unit_harmonise_exact.
 
+(* -- permuted / partially overlapping sample types: CompatibilizeSampleTypes keeps every sample
+      (same order, same stack identity) and carries each common type's column by NAME -- *)
+Theorem compat_aligns_columns : forall st p p',
+  compat_one st p = Ok p' ->
+  exists f, p_sample p' = map f (p_sample p)
+    /\ (forall s, key_eqb (f s) s = true)
+    /\ forall j t, nth_error st j = Some t ->
+         exists i, index_of t (type_names p) 0%nat = Some i
+                   /\ (forall s, val_at j (f s) = val_at i s)
+                   /\ nth j (p_sampletype p') dummy_vt = nth i (p_sampletype p) dummy_vt.
+Proof. exact compat_aligns_lemma. Qed.
+Print Assumptions compat_aligns_columns.
+
 (* -- non-vacuity -- *)
 Example flat_selector_respects_key : forall p e, respects_key (flat_g p e).
 Proof. exact flat_g_respects. Qed.
